@@ -87,6 +87,39 @@ pub fn vx_int_to_string(n: i64) -> (r: String) ensures r@ == spec_int_str(n as i
 #[verifier::external_body]
 pub fn vx_clone_pids(v: &Vec<i32>) -> (r: Vec<i32>) ensures r@ == v@ { v.clone() }
 
+// ---- the `jobs` builtin (C06 / C07): what is listed is the table as it is AFTER the poll the builtin itself makes ----
+pub ghost struct ListLog { pub polled: bool, pub printed: Seq<Seq<char>> }
+// jobc::try_wait_bg_jobs: applies whatever child events are pending to the table (contracts in U-WAIT): any change of sh.jobs
+#[verifier::external_body]
+pub fn try_wait_bg_jobs(sh: &mut Shell, report: bool, sig_handler: bool, Tracked(ll): Tracked<&mut ListLog>)
+    ensures final(ll).polled, final(ll).printed == old(ll).printed
+{ unimplemented!() }
+#[verifier::external_body]
+pub fn vx_clone_jobs(m: &HashMap<i32, Job>) -> (r: HashMap<i32, Job>) ensures r@ == m@ { unimplemented!() }
+// HashMap iteration through a snapshot: every entry once, unspecified order
+#[verifier::external_body]
+pub fn vx_job_values(m: &HashMap<i32, Job>) -> (r: Vec<Job>)
+    ensures r@.len() == m@.dom().len(), forall|i: int| 0 <= i < r@.len() ==> m@.contains_key((#[trigger] r@[i]).id) && m@[r@[i].id] == r@[i]
+{ unimplemented!() }
+pub uninterp spec fn spec_job_line(j: Job, trim: bool) -> Seq<char>;
+#[verifier::external_body]
+pub fn get_job_line(job: &Job, trim: bool) -> (r: String) ensures r@ == spec_job_line(*job, trim) { unimplemented!() }
+pub uninterp spec fn spec_join_nl(v: Seq<Seq<char>>) -> Seq<char>;
+pub open spec fn strs(v: Seq<String>) -> Seq<Seq<char>> { v.map_values(|s: String| s@) }
+#[verifier::external_body]
+pub fn vx_join_nl(v: &Vec<String>) -> (r: String) ensures r@ == spec_join_nl(strs(v@)) { v.join("\n") }
+#[verifier::external_body]
+pub fn print_stdout_with_capture(info: &str, cr: &mut CommandResult, cl: &CommandLine, cmd: &Command, capture: bool, Tracked(ll): Tracked<&mut ListLog>)
+    ensures final(ll).printed == old(ll).printed.push(info@), final(ll).polled == old(ll).polled
+{ unimplemented!() }
+// the lines are the job lines of the jobs `js`, which are jobs of the table `m`, one per job of the table
+pub open spec fn lines_of_w(m: Map<i32, Job>, ls: Seq<Seq<char>>, trim: bool, js: Seq<Job>) -> bool {
+    ls.len() == m.dom().len() && js.len() == ls.len()
+    && forall|i: int| 0 <= i < ls.len() ==> m.contains_key((#[trigger] js[i]).id) && m[js[i].id] == js[i] && ls[i] == spec_job_line(js[i], trim)
+}
+pub open spec fn lines_of(m: Map<i32, Job>, ls: Seq<Seq<char>>, trim: bool) -> bool { exists|js: Seq<Job>| lines_of_w(m, ls, trim, js) }
+pub open spec fn wants_trim(cmd: Command) -> bool { !(cmd.tokens@.len() >= 2 && cmd.tokens@[1].1@ == "-f"@) }
+//@FN jobs_run
 //@FN bg_run
 //@FN fg_run
 ''' + common.TAIL
@@ -130,11 +163,35 @@ fg_run = Fn('src/builtins/fg.rs', 'run', rename='fg_run', ret='r', pre_rewrites=
         ('C07.fg.nothing_is_signalled_without_a_job', 'final(w).target.is_none() ==> final(w).signals == old(w).signals && final(w).waited == old(w).waited'),
     ])
 
+jobs_run = Fn('src/builtins/jobs.rs', 'run', rename='jobs_run', ret='r',
+    pre_rewrites=[Rw(r'\b(sh\.jobs|jobs)\.is_empty\(\)', r'vx_jobs_is_empty(&\1)', regex=True, rule='R12'),
+                  Rw('jobc::try_wait_bg_jobs(', 'try_wait_bg_jobs(', rule='R0'),
+                  Rw('sh.jobs.clone()', 'vx_clone_jobs(&sh.jobs)', rule='R7', why='HashMap clone: the same table'),
+                  Rw('for (_i, job) in jobs.iter() {', 'let __jv = vx_job_values(&jobs); for job in __jv.iter() {', rule='R12', why='HashMap iteration through a snapshot shim: every entry once, unspecified order'),
+                  Rw('jobc::get_job_line(', 'get_job_line(', rule='R0'),
+                  Rw('lines.join("\\n")', 'vx_join_nl(&lines)', rule='R12')],
+    add_params='Tracked(ll): Tracked<&mut ListLog>', ghost_args={'try_wait_bg_jobs': 'Tracked(ll)', 'print_stdout_with_capture': 'Tracked(ll)'},
+    let_types={'lines': 'Vec<String>'},
+    requires=[('C06+C07.pre.jobs.fresh_log', '!old(ll).polled && old(ll).printed.len() == 0')],
+    ensures=[
+        # what `jobs` prints is taken from the table as it is after the builtin's own poll: one line per job of THAT table
+        ('C06+C07.jobs.the_listing_is_taken_after_the_poll',
+         'final(ll).printed.len() <= 1 && (final(ll).printed.len() == 1 ==> final(ll).polled && exists|ls: Seq<Seq<char>>| final(ll).printed[0] == spec_join_nl(ls) && lines_of(final(sh).jobs@, ls, wants_trim(*cmd)))'),
+    ],
+    loops={0: Loop(invariant=[('C06+C07.inv.jobs.lines_of_the_snapshot',
+        'll.polled && ll.printed.len() == 0 && jobs@ == sh.jobs@ && __jv@.len() == jobs@.dom().len() && lines@.len() == __i0 '
+        '&& (forall|i: int| 0 <= i < __jv@.len() ==> jobs@.contains_key((#[trigger] __jv@[i]).id) && jobs@[__jv@[i].id] == __jv@[i]) '
+        '&& forall|i: int| 0 <= i < lines@.len() ==> (#[trigger] lines@[i])@ == spec_job_line(__jv@[i], !no_trim)')])},
+    hints={'after-call:print_stdout_with_capture': 'assert(ll.printed.len() == 1 && ll.printed[0] == spec_join_nl(strs(lines@)) && lines_of(sh.jobs@, strs(lines@), wants_trim(*cmd)));',
+           'before-call:vx_join_nl': 'assert(strs(lines@).len() == lines@.len()); assert(no_trim == !wants_trim(*cmd)); '
+           'assert forall|i: int| 0 <= i < lines@.len() implies sh.jobs@.contains_key((#[trigger] __jv@[i]).id) && sh.jobs@[__jv@[i].id] == __jv@[i] && strs(lines@)[i] == spec_job_line(__jv@[i], wants_trim(*cmd)) by { assert(strs(lines@)[i] == lines@[i]@); } '
+           'assert(lines_of_w(sh.jobs@, strs(lines@), wants_trim(*cmd), __jv@));'},
+)
 UNIT = Unit('U-JCMD', TEMPLATE,
-            fns=[bg_run, fg_run, Fn('src/types.rs', 'new', impl='CommandResult'), Fn('src/types.rs', 'error', impl='CommandResult')],
+            fns=[jobs_run, bg_run, fg_run, Fn('src/types.rs', 'new', impl='CommandResult'), Fn('src/types.rs', 'error', impl='CommandResult')],
             types=[TypeItem('src/types.rs', 'struct', 'Command'), TypeItem('src/types.rs', 'struct', 'CommandLine'), TypeItem('src/types.rs', 'struct', 'CommandResult'),
                    TypeItem('src/types.rs', 'struct', 'Job')],
-            props=('C07', 'C05'))
+            props=('C07', 'C06', 'C05'))
 TRUSTED = common.TRUSTED_STR + [
     'Shell::get_job_by_id / get_job_by_gid, jobc::mark_job_as_running, jobc::wait_fg_job are external here (contracts in U-JOBS / U-WAIT); the ghost world records which job a lookup returned and what was asked of the job-control layer',
     'killpg / tcsetpgrp are kernel calls: that SIGCONT to a process group resumes every stopped member is kernel behaviour; give_terminal_to succeeds for the shell\'s own group (assumed, as in U-PROC)',
